@@ -173,6 +173,7 @@ def customCatalogue (name : String) (v : Val) : Except Err Val :=
       | .str s => if s.length ≤ 5 then .ok v else .error .value
       | .list xs => if xs.length ≤ 5 then .ok v else .error .value
       | v => .ok v
+  | "keyerr" => .error .value                    -- fails with KeyError: a rejection like any other
   | "small" => match v with                      -- at most 2 items / entries
       | .list xs => if xs.length ≤ 2 then .ok v else .error .value
       | .dict kvs => if kvs.length ≤ 2 then .ok v else .error .value
